@@ -131,7 +131,7 @@ def cases(tier, rng, dist):
         yield {"f": "simcorr", "x": [str(v) for v in x], "y": [str(v) for v in y], "g": g, "alt": rng.choice(ALTS), "reps": rng.randint(1, 4), "plus1": rng.random() < 0.5,
                "mode": mode(), "aseed": rng.randint(0, 10**9), "xdt": xdt, "ydt": ydt}
     for _ in range(N // 2):
-        ng, nc = rng.randint(1, 3), rng.choice([1, 2, 2, 2, 3])
+        ng, nc = rng.randint(1, 3), rng.choice([1, 2, 2, 2, 3, 3, 4, 5])     # designs with MORE and FEWER treatment conditions alternate in the stream
         per = rng.randint(1, 2)
         g = [a for a in range(ng) for _ in range(nc * per)]
         c = [b for _ in range(ng) for b in range(nc) for _ in range(per)]
